@@ -21,7 +21,9 @@ META = {
             "reorganisation towards it succeeds (best_is_longest_available in step form, at reorg level and for an in-order arrival), "
             "no_displace_equal_or_shorter, below_lib_never_displaces, returned_txs (MemPoolPut events = confirmed before and not after); "
             "best_is_longest_available as a global invariant is refuted in Coq with the witness of the known finding: "
-            "it is false of the code for an orphan chain with an invalid tail.",
+            "it is false of the code for an orphan chain with an invalid tail; under the hypothesis excluding exactly that (an arrival that pulls parked "
+            "orphans in does not end in an error) it is proved as an INVARIANT over all arrival histories from genesis "
+            "(C07_best_is_longest_available_invariant).  The check also restarts the node after every arrival of its scenarios (same best, Inv).",
     "note": "Trusted: Coq kernel/vm_compute; engine, reference node and Python predicates; LIB supplied by a consensus stub as a monotone "
             "stream; apply/spent abstraction of execution.",
     "technique": "Coq invariant proof + vm_compute correspondence + differential reference node on real chain.ChainService",
